@@ -696,7 +696,7 @@ class ModeLoop(LoopSpec):
 
     def angles(self, env):
         th = to_real(val(env["θ"]))
-        ph = to_real(val(env["φ"])) if "φ" in env else z3.RealVal(0)
+        ph = to_real(val(env["φ"])) if "φ" in env and env["φ"] is not None else z3.RealVal(0)
         return th, ph
 
     def term(self, run, env, k, a):
@@ -1031,9 +1031,10 @@ def _dist3d_apply(self, engine, run, fi, args, kwargs):
 
 def _distaxi_apply(self, engine, run, fi, args, kwargs):
     me = args[0]
-    if len(args) + len(kwargs) != 2:
-        run.oblige(f"call arity: PerturbedDroplet3DAxisSym.interface_distance takes 1 angle but {len(args) + len(kwargs) - 1} were given",
-                   False, kind="implicit", assume_after=False)
+    npos = len(fi.node.args.args) - 1      # angles accepted by the current source
+    if not (1 <= len(args) - 1 + len(kwargs) <= npos):
+        run.oblige(f"call arity: PerturbedDroplet3DAxisSym.interface_distance takes {npos} angle(s) but "
+                   f"{len(args) + len(kwargs) - 1} were given", False, kind="implicit", assume_after=False)
         raise SymRaise(SExc("TypeError", ("interface_distance() takes 2 positional arguments",)))
     th = args[1]
     run.trust(f"contract:{self.key} (verified separately)")
